@@ -3,7 +3,7 @@
   functions over inputs, dynamic dependencies, durabilities, backdating, the event trace).
 
   ops (tokens separated by one space; integers decimal):
-    prog <nq> <ninputs>            start a new case: fresh state, current revision 1, every input
+    prog <nq> <ninputs> [<ncells>] start a new case (the cell count is accepted and ignored): fresh state, current revision 1, every input
                                    value 0 / durability 0 / changed_at 1, no memos           -> `ok`
     q <idx> <kind> <expr tokens…>  define query idx (0-based; must be defined in increasing order,
                                    idx < nq).  kind ∈ {plain}.  expr in PREFIX notation:
@@ -122,6 +122,12 @@ def handle (d : DState) (line : String) : Option (DState × String) :=
   | ["prog", nq, nin] => do
     let nq ← nat? nq
     let nin ← nat? nin
+    some ({ DState.empty with active := true, nq := nq, nin := nin }, "ok")
+  | ["prog", nq, nin, ncells] => do
+    -- the harness always prints the cell count; this model has no cells (`u<c>` is rejected)
+    let nq ← nat? nq
+    let nin ← nat? nin
+    let _ ← nat? ncells
     some ({ DState.empty with active := true, nq := nq, nin := nin }, "ok")
   | "q" :: idx :: kind :: toks => do
     if !d.active then none
